@@ -24,6 +24,11 @@ def cell_for(rng, system, setting, variant):
     if system in ("trigonal", "hexagonal") and setting == "rhombohedral":
         if variant == "orth":
             al = float(rng.choice([60.0, 90.0, 109.47122063449069]))
+        elif variant == "pseudo":
+            # just acute of cubic: where the 1.1 look-ahead factor of the -3 walk decides whether a row is reached
+            al = float(rng.uniform(75, 89.9))
+        elif variant == "long":
+            al = float(rng.uniform(90.1, 112))          # obtuse: the rows of the walk are far from radial
         else:
             al = float(rng.uniform(50, 115))
         a = float(rng.uniform(4, 9))
